@@ -47,6 +47,7 @@ BACKLOG = 5
 # string itself. This regexp is for matching these literal string declarations.
 #
 RE_LITERAL_STRING_START = re.compile(rb"\{(\d+)(\+)?\}$")
+RE_LITERAL_AT_END_OF_LINE = re.compile(rb"\{(\d+)\}\r\n$")
 
 # This dict is all of the subprocesses that we have created. One for each
 # authenticated user with at least one active connection.
@@ -469,6 +470,13 @@ class IMAPClient:
         self.stream_buffer_size = 65536
         self.ibuffer: list[bytes] = []
         self.ibuffer_size = 0
+
+        # Held by the task that relays the user process's responses while it
+        # is in the middle of one (a response with literals is relayed in
+        # several pieces): what we have to say to the client ourselves may
+        # only go out between responses, see `push_between_responses()`.
+        #
+        self.relay_lock = asyncio.Lock()
         self.subprocess_intf = IMAPSubprocessInterface(self)
 
     ####################################################################
@@ -488,6 +496,29 @@ class IMAPClient:
                 d = bytes(d, "latin-1")
             self.writer.write(d)
         await self.writer.drain()
+
+    ####################################################################
+    #
+    async def push_between_responses(self, *data: bytes | str) -> None:
+        """
+        Write something of our own (a `+` continuation request, a BAD for
+        input we refuse) to the IMAP Client while responses of the user
+        process may be on their way to it: wait until the response being
+        relayed right now, if any, is complete. In the middle of it (inside a
+        literal) our text would be taken for part of that response.
+        """
+        try:
+            # (not for ever: the client may be waiting for just this)
+            #
+            async with asyncio.timeout(10):
+                await self.relay_lock.acquire()
+        except TimeoutError:
+            await self.push(*data)
+            return
+        try:
+            await self.push(*data)
+        finally:
+            self.relay_lock.release()
 
     ####################################################################
     #
@@ -524,7 +555,7 @@ class IMAPClient:
                 # and that is an error.
                 #
                 if not self.ibuffer:
-                    await self.push(
+                    await self.push_between_responses(
                         b"* BAD We do not accept empty messages.\r\n"
                     )
                     continue
@@ -546,7 +577,7 @@ class IMAPClient:
                             literal_str_length,
                             MAX_INPUT_SIZE,
                         )
-                        await self.push(
+                        await self.push_between_responses(
                             b"* BAD literal size exceeds maximum "
                             b"allowed size\r\n"
                         )
@@ -572,7 +603,9 @@ class IMAPClient:
                     # send us the string literal.
                     #
                     if not m.group(2):
-                        await self.push(b"+ Ready for more input\r\n")
+                        await self.push_between_responses(
+                            b"+ Ready for more input\r\n"
+                        )
 
                     # Read the string literal.
                     #
@@ -597,7 +630,7 @@ class IMAPClient:
                             self.ibuffer_size,
                             MAX_INPUT_SIZE,
                         )
-                        await self.push(
+                        await self.push_between_responses(
                             b"* BAD command exceeds maximum allowed size\r\n"
                         )
                         self.ibuffer = []
@@ -624,7 +657,7 @@ class IMAPClient:
                         self.ibuffer_size,
                         MAX_INPUT_SIZE,
                     )
-                    await self.push(
+                    await self.push_between_responses(
                         b"* BAD command exceeds maximum allowed size\r\n"
                     )
                     self.ibuffer = []
@@ -1113,20 +1146,46 @@ class IMAPSubprocessInterface:
         subprocess on `self.reader`. When we get data, send it to the IMAP
         client.
         """
+        # A response with literals reaches the client in several pieces. While
+        # we are in the middle of one we hold the client's `relay_lock`, so
+        # that the client's own task does not write (`+ Ready ..`, a BAD) into
+        # it.
+        #
+        relay_lock = self.imap_client.relay_lock
+        in_response = False
+        literal_left = 0
         try:
             while True:
                 if self.reader.at_eof():
                     break
+                if literal_left > 0:
+                    msg = await self.reader.read(min(literal_left, 65536))
+                    if not msg:
+                        break
+                    literal_left -= len(msg)
+                    await self.imap_client.push(msg)
+                    continue
+                complete = True
                 try:
                     msg = await self.reader.readuntil(b"\r\n")
                 except asyncio.LimitOverrunError as exc:
                     # More data than the stream reader buffers without a
-                    # line terminator in it (a very long line inside of a
-                    # message that is being fetched.) We only relay the data,
-                    # so pass on what is there and carry on.
+                    # line terminator in it. We only relay the data, so pass
+                    # on what is there and carry on.
                     #
                     msg = await self.reader.read(exc.consumed)
+                    complete = False
+                m = RE_LITERAL_AT_END_OF_LINE.search(msg) if complete else None
+                more_to_come = m is not None or not complete
+                if more_to_come and not in_response:
+                    await relay_lock.acquire()
+                    in_response = True
                 await self.imap_client.push(msg)
+                if m is not None:
+                    literal_left = int(m.group(1))
+                if in_response and not more_to_come:
+                    relay_lock.release()
+                    in_response = False
         except (OSError, asyncio.IncompleteReadError, ConnectionResetError):
             pass
         except asyncio.LimitOverrunError as exc:
@@ -1140,6 +1199,8 @@ class IMAPSubprocessInterface:
                 "error either reading or pushing message to imap client"
             )
         finally:
+            if in_response:
+                relay_lock.release()
             # either the connection to the subprocess was closed or the
             # connection to the IMAP client was closed. In either case attempt
             # to shutdown both connections.
